@@ -33,6 +33,8 @@ def plan(ctx):
     # larger data sets (own case kind so that a replay does not depend on the tier): beyond numpy's small-array
     # sort threshold (16) and with more epochs than any quick "problem" case
     cases += [("problemL", i) for i in range(40 if ctx.thorough else 3)]
+    # many surveys: two-digit offset names (dv0_10, dv0_11, ...) - beyond what any single-digit test exercises
+    cases += [("manysurveys", i) for i in range(12 if ctx.thorough else 2)]
     return cases
 
 
@@ -140,8 +142,13 @@ def slots_vs_lean(ctx, g, pr, c, hx):
                      dict(mu=want_mu, Lambda=want_lam), "constructor slot arithmetic must match Kernel.slotsImp: " + "; ".join(bad[:4]))
 
 
-def run_problem(ctx, g, rng, high_e=False, large=False):
-    pr = scen.make_problem(rng, n=int(rng.integers(17, 33)) if large else int(rng.integers(1, 13)))
+def run_problem(ctx, g, rng, high_e=False, large=False, many=False):
+    if many:
+        q = int(rng.integers(10, 13))
+        pr = scen.make_problem(rng, n=q + 1 + int(rng.integers(2, 12)), q=q, p=int(rng.choice([1, 2])), K_kind="fcm", means=True)
+        ctx.count("many_surveys")
+    else:
+        pr = scen.make_problem(rng, n=int(rng.integers(17, 33)) if large else int(rng.integers(1, 13)))
     N = 6
     s_values = None
     if pr.desc["s"]["kind"] == "sampled":
@@ -211,7 +218,7 @@ def run_problem(ctx, g, rng, high_e=False, large=False):
             continue
         ll0 = cf["ll"]
         # model sanity: Lean Q model on the same rationals (ivar = 1/var exactly here, s folded in by the model)
-        if i < 2:
+        if i < 2 and c["k"] <= 6:      # the Lean determinant is a Leibniz sum: k! terms
             iv = np.array([1.0 / float(v) ** 2 for v in c["sigma"]])
             # feed the model doubles: sigma^2 is generally not a double, so compare against the closed form built
             # from the model's own inputs (ivar doubles), exactly
@@ -224,7 +231,7 @@ def run_problem(ctx, g, rng, high_e=False, large=False):
                 if not cf_m["singular"] and (core.rat(mres["chi2"]) != cf_m["chi2"] or core.rat(mres["detB"]) != cf_m["detB"]):
                     raise core.Infra(f"Lean kernel model disagrees with the dense closed form on exact rationals "
                                      f"(case {g}, row {i}): model chi2={float(core.rat(mres['chi2']))} vs {float(cf_m['chi2'])}")
-        if i < 2:
+        if i < 2 and c["k"] <= 6:
             buffers_vs_lean(ctx, g, hx, chunk[i], inp)
         tolF, well, cA, cB = kern.budget(M, [float(v) for v in var], [float(v) for v in lam], cf["chi2"], ll0, c["n"], th["e"], r=cf["r"])
         tolE = 1e-10 * (1 + abs(ll0)) + 1e-13 * np.sqrt(cB) * (1 + abs(float(cf["chi2"])))
@@ -270,7 +277,7 @@ def setup(ctx):
 def run_case(ctx, g):
     ctx.seed = g.get("seed", ctx.seed)
     rng = ctx.case_rng(g["kind"], g["index"])
-    run_problem(ctx, g, rng, high_e=(g["kind"] == "higheccen"), large=(g["kind"] == "problemL"))
+    run_problem(ctx, g, rng, high_e=(g["kind"] == "higheccen"), large=(g["kind"] == "problemL"), many=(g["kind"] == "manysurveys"))
 
 
 def post(ctx):
@@ -284,4 +291,5 @@ def post(ctx):
         ctx.require("cap-binding cases", c["discriminates:cap"], 2)
         ctx.require("p>=2 problems", c["p=2"] + c["p=3"], 4)
         ctx.require("model sanity checks", c["model_sanity_checks"], 10)
+        ctx.require("problems with >= 10 survey offsets", c["many_surveys"], 2)
         ctx.require("libraries mixing s == 0 and s > 0 rows", c["mixed_jitter_library"], 3)
